@@ -10,4 +10,14 @@ for c in man["checks"]:
     targets += [f"OdcGeo.Props.{f.stem}" for f in sorted((ROOT / "lean" / "OdcGeo" / "Props").glob(f"{pid}*.lean"))]
     targets.append(f"driver_{pid.lower()}")
 p = subprocess.run(["lake", "build", *targets], cwd=str(ROOT / "lean"))
-sys.exit(p.returncode)
+rc = p.returncode
+# source tie (harness/gentie.py): regenerate lean/OdcGeo/Gen/Cxx.lean from /repo and build Props/GenCxx for the ready properties
+try:
+    sys.path.insert(0, str(ROOT))
+    from harness import gentie
+    ready = [pid for pid in gentie.GENTIE_READY if any(c["property_id"] == pid for c in man["checks"])]
+    if ready:
+        rc = rc or subprocess.run([sys.executable, "-m", "harness.gentie", *ready], cwd=str(ROOT)).returncode
+except ImportError:
+    pass
+sys.exit(rc)
